@@ -68,6 +68,13 @@ def oracle(case, pre, final, cs, t0, final_ok):
                     if e["kind"] == "dir":
                         dir_locs.add(q)
     parents = {q[:i] for q in foot for i in range(1, len(q))}
+    # the implied ancestors of every entry, INCLUDING the offset root, belong to the merge whether or not
+    # the entry itself ever resolves (a merge that dies at its first nested mkdir has still created the
+    # offset): they may appear - as directories - at any point after their creation.  This only excuses
+    # paths that did not exist before; pre-existing paths are judged by the old-or-new loop below.
+    for e in ents:
+        raw = ("o",) + tuple(e["loc"])
+        parents.update(raw[:i] for i in range(1, len(raw)))
     for p, a in pre.items():
         c = cs.get(p)
         f = final.get(p)
@@ -91,7 +98,7 @@ def oracle(case, pre, final, cs, t0, final_ok):
             cls = "half-written"
         bad.append((cls, {"path": p, "before": c18._short(a), "at_fault": c18._short(c), "complete_new": c18._short(f)}))
     for p, c in cs.items():
-        if p in pre or p in foot or p in parents:
+        if p in pre or p in foot or (p in parents and c[0] == "dir"):
             continue
         bad.append(("frame", {"path": p, "before": None, "at_fault": c18._short(c)}))
     return bad
@@ -136,6 +143,13 @@ def run_faults(base, case, seed, chunk, rng, max_points):
             "err": c18.exc_kind(run0.exc)}
 
 
+def own_corpus():
+    import json
+    from .common import VERIF
+    cdir = VERIF / "corpus" / "C19"
+    return [c18._case_unjson(json.loads(f.read_text())) for f in sorted(cdir.glob("*.json"))] if cdir.is_dir() else []
+
+
 def main(chk: Check):
     root_user = os.getuid() == 0
     chk.rule("random small contents sets over random pre-existing roots (generator of C18: same/other-type "
@@ -158,7 +172,7 @@ def main(chk: Check):
     kinds = {}
     npoints = 0
     prop_bad = []
-    todo = c18.corpus_cases(chk) + [None] * ncases       # C18's corpus (pinned shapes) first
+    todo = own_corpus() + c18.corpus_cases(chk) + [None] * ncases       # pinned shapes first
     for i, case in enumerate(todo):
         if case is None:
             case = c18.gen_case(chk.rng, root_user)
